@@ -1013,3 +1013,213 @@ func verifPartitionSMF(m Message) (n int) {
 //@ func (MetricTicks).Ticks32th
 //@ uses t32of.def
 //@ ensures [P:C20] result == t32of(uint16(q))
+
+// ---------------------------------------------------------------- chunks and the writer (C03, C10, C01)
+// The destination is the abstract sink of /verif/spec/stdlib.gvs: (wdata, wlen, wmayfail, wfailed).
+
+//@ func (*chunk).Len
+//@ ensures result == len(c.data)
+
+//@ func (*chunk).SetType
+//@ modifies c.typ
+//@ ensures [P:C03] fresh(c.typ) && len(c.typ) == 4 && c.typ[0] == typ[0] && c.typ[1] == typ[1] && c.typ[2] == typ[2] && c.typ[3] == typ[3]
+
+//@ func (*chunk).Clear
+//@ modifies c.data
+//@ ensures [P:C03] len(c.data) == 0
+
+// Write appends to the chunk body
+//@ func (*chunk).Write
+//@ modifies c.data
+//@ ensures [P:C03] result0 == len(b) && result1 == nil && len(c.data) == old(len(c.data)) + len(b) && fresh(c.data)
+//@ ensures [P:C03] forall i int :: 0 <= i && i < old(len(c.data)) ==> c.data[i] == old(c.data[i])
+//@ ensures [P:C03] forall i int :: 0 <= i && i < len(b) ==> c.data[old(len(c.data)) + i] == b[i]
+
+// WriteTo: chunk framing = 4 byte type, big-endian 32 bit body length, body, in one Write; n = bytes accepted;
+// a failing destination is reported
+//@ func (*chunk).WriteTo
+//@ inline
+//@ requires wr != nil && len(c.data) < 2147483648 && wr.wlen >= 0
+//@ modifies wr.wdata, wr.wlen, wr.wfailed
+//@ ensures [P:C03] len(c.typ) == 4 ==> (result0 == int64(wr.wlen - old(wr.wlen)) && wr.wlen >= old(wr.wlen) && wr.wlen <= old(wr.wlen) + 8 + len(c.data))
+//@ ensures [P:C10] result1 == nil ==> (len(c.typ) == 4 && wr.wlen == old(wr.wlen) + 8 + len(c.data) && wr.wfailed == old(wr.wfailed))
+//@ ensures [P:C10] (len(c.typ) == 4 && wr.wlen < old(wr.wlen) + 8 + len(c.data)) ==> result1 != nil
+//@ ensures [P:C10] !wr.wmayfail && len(c.typ) == 4 ==> result1 == nil
+//@ ensures [P:C03] forall i int :: 0 <= i && i < old(wr.wlen) ==> wr.wdata[i] == old(wr.wdata[i])
+//@ ensures [P:C03] result1 == nil ==> (wr.wdata[old(wr.wlen)] == c.typ[0] && wr.wdata[old(wr.wlen) + 1] == c.typ[1] && wr.wdata[old(wr.wlen) + 2] == c.typ[2] && wr.wdata[old(wr.wlen) + 3] == c.typ[3])
+//@ ensures [P:C03] result1 == nil ==> (wr.wdata[old(wr.wlen) + 4] == uint8(uint32(len(c.data)) >> 24) && wr.wdata[old(wr.wlen) + 5] == uint8(uint32(len(c.data)) >> 16) && wr.wdata[old(wr.wlen) + 6] == uint8(uint32(len(c.data)) >> 8) && wr.wdata[old(wr.wlen) + 7] == uint8(uint32(len(c.data))))
+//@ ensures [P:C03] result1 == nil ==> forall j int :: old(wr.wlen) + 8 <= j && j < old(wr.wlen) + 8 + len(c.data) ==> wr.wdata[j] == c.data[j - old(wr.wlen) - 8]
+
+// the byte counter around the destination counts what the destination accepted
+//@ func (*wrWrapper).Write
+//@ requires w.wr != nil && w.wr.wlen >= 0
+//@ modifies w.size, w.wr.wdata, w.wr.wlen, w.wr.wfailed
+//@ ensures [P:C03] w.size == old(w.size) + int64(result0) && result0 == w.wr.wlen - old(w.wr.wlen) && 0 <= result0 && result0 <= len(p)
+//@ ensures [P:C10] result1 == nil ==> (result0 == len(p) && w.wr.wfailed == old(w.wr.wfailed))
+//@ ensures [P:C10] result0 < len(p) ==> result1 != nil
+//@ ensures [P:C10] result1 != nil ==> w.wr.wfailed
+//@ ensures [P:C10] !w.wr.wmayfail ==> result1 == nil
+//@ ensures [P:C03] forall i int :: 0 <= i && i < old(w.wr.wlen) ==> w.wr.wdata[i] == old(w.wr.wdata[i])
+//@ ensures [P:C03] forall j int :: old(w.wr.wlen) <= j && j < old(w.wr.wlen) + result0 ==> w.wr.wdata[j] == p[j - old(w.wr.wlen)]
+
+// logging is not part of the verified behaviour (assumption L1: a logger neither mutates verified state nor panics)
+//@ func (*writer).printf
+//@ opaque
+//@ func (*SMF).log
+//@ opaque
+//@ func (*reader).log
+//@ opaque
+//@ func :iface:smf.Logger.Printf
+//@ opaque
+
+// time division (SMF 1.0 header): metric = 15 bit ticks per quarter note (0 means the default 960, values
+// above 32767 are clamped); SMPTE = negative frames per second in the high byte, subframes in the low byte
+//@ macro mtq(tf) = (uint16(bval(tf)) == 0 ? 960 : (uint16(bval(tf)) > 32767 ? 32767 : uint16(bval(tf))))
+
+//@ func (*writer).writeTimeFormat
+//@ inline
+//@ requires wr != nil && w.SMF != nil && wr.wlen >= 0
+//@ modifies wr.wdata, wr.wlen, wr.wfailed
+//@ ensures [P:C10] !wr.wmayfail && (typeof(w.SMF.TimeFormat) == typeid(MetricTicks) || typeof(w.SMF.TimeFormat) == typeid(TimeCode)) ==> result == nil
+//@ ensures [P:C10] result == nil ==> (wr.wlen == old(wr.wlen) + 2 && wr.wfailed == old(wr.wfailed))
+//@ ensures [H] wr.wlen >= old(wr.wlen)
+//@ ensures [P:C03] forall i int :: 0 <= i && i < old(wr.wlen) ==> wr.wdata[i] == old(wr.wdata[i])
+//@ ensures [P:C01] result == nil && typeof(w.SMF.TimeFormat) == typeid(MetricTicks) ==> (wr.wdata[old(wr.wlen)] == uint8(mtq(w.SMF.TimeFormat) >> 8) && wr.wdata[old(wr.wlen) + 1] == uint8(mtq(w.SMF.TimeFormat)))
+//@ ensures [P:C01] result == nil && typeof(w.SMF.TimeFormat) == typeid(TimeCode) ==> wr.wdata[old(wr.wlen)] == 0 - asptr(w.SMF.TimeFormat, TimeCode).FramesPerSecond
+//@ ensures [P:C01] result == nil && typeof(w.SMF.TimeFormat) == typeid(TimeCode) ==> wr.wdata[old(wr.wlen) + 1] == asptr(w.SMF.TimeFormat, TimeCode).SubFrames
+//@ ensures [P:C03] result == nil ==> (typeof(w.SMF.TimeFormat) == typeid(MetricTicks) || typeof(w.SMF.TimeFormat) == typeid(TimeCode))
+
+// header chunk: "MThd" 00 00 00 06 <format> <ntrks> <division>, 14 bytes in one Write
+//@ func (*writer).writeHeader
+//@ inline
+//@ requires wr != nil && w.SMF != nil && wr.wlen >= 0
+//@ modifies wr.wdata, wr.wlen, wr.wfailed
+//@ ensures [P:C10] result == nil ==> (wr.wlen == old(wr.wlen) + 14 && wr.wfailed == old(wr.wfailed))
+//@ ensures [P:C10] (typeof(w.SMF.TimeFormat) == typeid(MetricTicks) || typeof(w.SMF.TimeFormat) == typeid(TimeCode)) && wr.wlen < old(wr.wlen) + 14 ==> result != nil
+//@ ensures [P:C10] !wr.wmayfail && (typeof(w.SMF.TimeFormat) == typeid(MetricTicks) || typeof(w.SMF.TimeFormat) == typeid(TimeCode)) ==> result == nil
+//@ ensures [H] wr.wlen >= old(wr.wlen) && wr.wlen <= old(wr.wlen) + 14
+//@ ensures [P:C03] forall i int :: 0 <= i && i < old(wr.wlen) ==> wr.wdata[i] == old(wr.wdata[i])
+//@ ensures [P:C03] result == nil ==> (wr.wdata[old(wr.wlen)] == 0x4D && wr.wdata[old(wr.wlen) + 1] == 0x54 && wr.wdata[old(wr.wlen) + 2] == 0x68 && wr.wdata[old(wr.wlen) + 3] == 0x64 && wr.wdata[old(wr.wlen) + 4] == 0 && wr.wdata[old(wr.wlen) + 5] == 0 && wr.wdata[old(wr.wlen) + 6] == 0 && wr.wdata[old(wr.wlen) + 7] == 6)
+//@ ensures [P:C03] result == nil ==> (wr.wdata[old(wr.wlen) + 8] == uint8(w.SMF.format >> 8) && wr.wdata[old(wr.wlen) + 9] == uint8(w.SMF.format) && wr.wdata[old(wr.wlen) + 10] == uint8(w.SMF.numTracks >> 8) && wr.wdata[old(wr.wlen) + 11] == uint8(w.SMF.numTracks))
+//@ ensures [P:C01] result == nil && typeof(w.SMF.TimeFormat) == typeid(MetricTicks) ==> (wr.wdata[old(wr.wlen) + 12] == uint8(mtq(w.SMF.TimeFormat) >> 8) && wr.wdata[old(wr.wlen) + 13] == uint8(mtq(w.SMF.TimeFormat)))
+//@ ensures [P:C01] result == nil && typeof(w.SMF.TimeFormat) == typeid(TimeCode) ==> (wr.wdata[old(wr.wlen) + 12] == 0 - asptr(w.SMF.TimeFormat, TimeCode).FramesPerSecond && wr.wdata[old(wr.wlen) + 13] == asptr(w.SMF.TimeFormat, TimeCode).SubFrames)
+
+// ---- the track writer. Representation invariant of a writer:
+//@ macro writerInv(w) = w.SMF != nil && w.output != nil && w.output.wr != nil && w.output.wr.wlen >= 0 && len(w.currentChunk.typ) == 4 && w.currentChunk.typ[0] == 0x4D && w.currentChunk.typ[1] == 0x54 && w.currentChunk.typ[2] == 0x72 && w.currentChunk.typ[3] == 0x6B && (w.runningWriter == nil || typeof(w.runningWriter) == typeid(*runningstatus.smfwriter)) && (w.SMF.NoRunningStatus <==> w.runningWriter == nil)
+// running status of the chunk under construction (0 = none / switched off)
+//@ macro wrs(w) = (w.runningWriter == nil ? 0 : asptr(w.runningWriter, runningstatus.smfwriter).status)
+
+// appendToChunk: body' = body ++ vlq(delta) ++ b
+//@ func (*writer).appendToChunk
+//@ modifies w.currentChunk
+//@ ensures [P:C03] len(w.currentChunk.data) == old(len(w.currentChunk.data)) + vlqLen(deltaTime) + len(b) && w.currentChunk.typ == old(w.currentChunk.typ) && fresh(w.currentChunk.data)
+//@ ensures [P:C03] forall i int :: 0 <= i && i < old(len(w.currentChunk.data)) ==> w.currentChunk.data[i] == old(w.currentChunk.data[i])
+//@ ensures [P:C03] forall j int :: old(len(w.currentChunk.data)) <= j && j < old(len(w.currentChunk.data)) + vlqLen(deltaTime) ==> w.currentChunk.data[j] == vlqByte(deltaTime, j - old(len(w.currentChunk.data)))
+//@ ensures [P:C03] forall j int :: old(len(w.currentChunk.data)) + vlqLen(deltaTime) <= j && j < len(w.currentChunk.data) ==> w.currentChunk.data[j] == b[j - old(len(w.currentChunk.data)) - vlqLen(deltaTime)]
+
+// one event: body' = body ++ vlq(delta) ++ enc(msg), where enc is
+//   sysex / escape (F0, F7):  status, vlq(len-1), the remaining bytes            (running status cancelled)
+//   channel message with the running status of this chunk: the message without its status byte
+//   anything else: the message as it is (meta events cancel running status, channel messages set it)
+//@ macro isSx(raw) = raw[0] == 0xF0 || raw[0] == 0xF7
+//@ macro isCh(raw) = raw[0] >= 0x80 && raw[0] <= 0xEF
+//@ macro elide(w, raw) = w.runningWriter != nil && isCh(raw) && raw[0] == wrs(w)
+//@ macro bodyLen(w, raw) = (isSx(raw) ? 1 + vlqLen(uint32(len(raw) - 1)) + len(raw) - 1 : (elide(w, raw) ? len(raw) - 1 : len(raw)))
+
+//@ func (*writer).addMessage
+//@ requires writerInv(w) && len(raw) >= 1 && len(raw) < 4294967296
+//@ modifies w.absPos, w.currentChunk, asptr(w.runningWriter, runningstatus.smfwriter).status
+//@ ensures [P:C03] writerInv(w) && w.runningWriter == old(w.runningWriter)
+//@ ensures [P:C03] len(w.currentChunk.data) == old(len(w.currentChunk.data)) + vlqLen(deltaTime) + old(bodyLen(w, raw))
+//@ ensures [P:C03] forall i int :: 0 <= i && i < old(len(w.currentChunk.data)) ==> w.currentChunk.data[i] == old(w.currentChunk.data[i])
+//@ ensures [P:C03] forall i int :: 0 <= i && i < vlqLen(deltaTime) ==> w.currentChunk.data[old(len(w.currentChunk.data)) + i] == vlqByte(deltaTime, i)
+//@ ensures [P:C01] old(isSx(raw)) ==> w.currentChunk.data[old(len(w.currentChunk.data)) + vlqLen(deltaTime)] == raw[0]
+//@ ensures [P:C01] old(isSx(raw)) ==> forall j int :: old(len(w.currentChunk.data)) + vlqLen(deltaTime) + 1 <= j && j < old(len(w.currentChunk.data)) + vlqLen(deltaTime) + 1 + vlqLen(uint32(len(raw) - 1)) ==> w.currentChunk.data[j] == vlqByte(uint32(len(raw) - 1), j - old(len(w.currentChunk.data)) - vlqLen(deltaTime) - 1)
+//@ ensures [P:C01] old(isSx(raw)) ==> forall j int :: old(len(w.currentChunk.data)) + vlqLen(deltaTime) + vlqLen(uint32(len(raw) - 1)) + 1 <= j && j < len(w.currentChunk.data) ==> w.currentChunk.data[j] == raw[j - old(len(w.currentChunk.data)) - vlqLen(deltaTime) - vlqLen(uint32(len(raw) - 1))]
+//@ ensures [P:C03] (!old(isSx(raw)) && old(elide(w, raw))) ==> forall i int :: 1 <= i && i < len(raw) ==> w.currentChunk.data[old(len(w.currentChunk.data)) + vlqLen(deltaTime) + i - 1] == raw[i]
+//@ ensures [P:C01] (!old(isSx(raw)) && !old(elide(w, raw))) ==> forall i int :: 0 <= i && i < len(raw) ==> w.currentChunk.data[old(len(w.currentChunk.data)) + vlqLen(deltaTime) + i] == raw[i]
+//@ ensures [P:C03] w.runningWriter != nil ==> wrs(w) == (old(isCh(raw)) ? raw[0] : 0)
+
+//@ func (*writer).SetDelta
+//@ modifies w.deltatime
+//@ ensures w.deltatime == deltatime
+
+//@ func newWriter
+//@ requires s != nil
+//@ ensures [P:C03] fresh(result) && result.SMF == s && result.output != nil && fresh(result.output) && result.output.wr == output && result.output.size == 0
+//@ ensures [P:C03] len(result.currentChunk.data) == 0 && result.error == nil && !result.headerWritten && result.deltatime == 0
+//@ ensures [P:C03] output != nil && output.wlen >= 0 ==> (writerInv(result) && wrs(result) == 0)
+
+// WriteHeader: writes the header once; a failure is latched in w.error
+//@ func (*writer).WriteHeader
+//@ requires writerInv(w) && (typeof(w.SMF.TimeFormat) == typeid(MetricTicks) || typeof(w.SMF.TimeFormat) == typeid(TimeCode))
+//@ modifies w.headerWritten, w.error, w.output.size, w.output.wr.wdata, w.output.wr.wlen, w.output.wr.wfailed
+//@ ensures [P:C10] !old(w.headerWritten) && result == nil ==> w.output.wr.wlen == old(w.output.wr.wlen) + 14
+//@ ensures [P:C10] !old(w.headerWritten) && w.output.wr.wlen < old(w.output.wr.wlen) + 14 ==> result != nil
+//@ ensures [P:C10] !old(w.headerWritten) && result == nil ==> w.output.wr.wfailed == old(w.output.wr.wfailed)
+//@ ensures [P:C03] w.output.size == old(w.output.size) + int64(w.output.wr.wlen - old(w.output.wr.wlen)) && w.output.wr.wlen >= old(w.output.wr.wlen)
+//@ ensures [H] w.headerWritten && (old(w.headerWritten) ==> (result == old(w.error) && w.output.wr.wlen == old(w.output.wr.wlen)))
+//@ ensures [P:C03] forall i int :: 0 <= i && i < old(w.output.wr.wlen) ==> w.output.wr.wdata[i] == old(w.output.wr.wdata[i])
+
+// Write: one event with the pending delta, which is then reset; a header failure blocks the writer
+//@ func (*writer).Write
+//@ requires writerInv(w) && len(m) >= 1 && len(m) < 4294967296 && w.headerWritten && w.error == nil
+//@ modifies w.absPos, w.currentChunk, w.deltatime, asptr(w.runningWriter, runningstatus.smfwriter).status
+//@ ensures [P:C03] err == nil && writerInv(w) && w.runningWriter == old(w.runningWriter) && w.deltatime == 0 && w.headerWritten && w.error == nil
+//@ ensures [P:C03] len(w.currentChunk.data) == old(len(w.currentChunk.data)) + vlqLen(old(w.deltatime)) + old(bodyLen(w, m))
+//@ ensures [P:C03] forall i int :: 0 <= i && i < old(len(w.currentChunk.data)) ==> w.currentChunk.data[i] == old(w.currentChunk.data[i])
+//@ ensures [P:C03] forall j int :: old(len(w.currentChunk.data)) <= j && j < old(len(w.currentChunk.data)) + vlqLen(old(w.deltatime)) ==> w.currentChunk.data[j] == vlqByte(old(w.deltatime), j - old(len(w.currentChunk.data)))
+//@ ensures [P:C01] (!old(isSx(m)) && !old(elide(w, m))) ==> forall j int :: old(len(w.currentChunk.data)) + vlqLen(old(w.deltatime)) <= j && j < len(w.currentChunk.data) ==> w.currentChunk.data[j] == m[j - old(len(w.currentChunk.data)) - vlqLen(old(w.deltatime))]
+//@ ensures [P:C03] w.runningWriter != nil ==> wrs(w) == (old(isCh(m)) ? m[0] : 0)
+
+// writeChunkTo: emits the track chunk "MTrk" <length> <body> and prepares the writer for the next track:
+// empty body, delta 0, fresh running status
+//@ func (*writer).writeChunkTo
+//@ inline
+//@ requires writerInv(w) && wr != nil && wr.wlen >= 0 && len(w.currentChunk.data) < 2147483648
+//@ modifies w.currentChunk, w.deltatime, w.tracksProcessed, w.runningWriter, wr.wdata, wr.wlen, wr.wfailed
+//@ ensures [P:C10] err == nil ==> (wr.wlen == old(wr.wlen) + 8 + old(len(w.currentChunk.data)) && wr.wfailed == old(wr.wfailed))
+//@ ensures [P:C10] wr.wlen < old(wr.wlen) + 8 + old(len(w.currentChunk.data)) ==> err != nil
+//@ ensures [H] wr.wlen >= old(wr.wlen) && wr.wlen <= old(wr.wlen) + 8 + old(len(w.currentChunk.data))
+//@ ensures [P:C03] forall i int :: 0 <= i && i < old(wr.wlen) ==> wr.wdata[i] == old(wr.wdata[i])
+//@ ensures [P:C03] err == nil ==> (wr.wdata[old(wr.wlen)] == 0x4D && wr.wdata[old(wr.wlen) + 1] == 0x54 && wr.wdata[old(wr.wlen) + 2] == 0x72 && wr.wdata[old(wr.wlen) + 3] == 0x6B)
+//@ ensures [P:C03] err == nil ==> (wr.wdata[old(wr.wlen) + 4] == uint8(uint32(old(len(w.currentChunk.data))) >> 24) && wr.wdata[old(wr.wlen) + 5] == uint8(uint32(old(len(w.currentChunk.data))) >> 16) && wr.wdata[old(wr.wlen) + 6] == uint8(uint32(old(len(w.currentChunk.data))) >> 8) && wr.wdata[old(wr.wlen) + 7] == uint8(uint32(old(len(w.currentChunk.data)))))
+//@ ensures [P:C03] err == nil ==> forall j int :: old(wr.wlen) + 8 <= j && j < wr.wlen ==> wr.wdata[j] == old(w.currentChunk.data[j - wr.wlen - 8])
+//@ ensures [P:C03] err == nil ==> (len(w.currentChunk.data) == 0 && w.deltatime == 0 && w.tracksProcessed == old(w.tracksProcessed) + 1 && (!w.SMF.NoRunningStatus ==> wrs(w) == 0))
+//@ ensures [H] err == nil ==> (len(w.currentChunk.typ) == 4 && w.currentChunk.typ == old(w.currentChunk.typ) && (w.runningWriter == nil || typeof(w.runningWriter) == typeid(*runningstatus.smfwriter)) && (w.SMF.NoRunningStatus <==> w.runningWriter == nil))
+
+// ---------------------------------------------------------------- tracks (C01, C16)
+// M5: user code does not mutate the package variable EOT
+//@ globalinv smf.EOT: len(EOT) == 3 && EOT[0] == 0xFF && EOT[1] == 0x2F && EOT[2] == 0x00
+
+//@ macro isEOT(m) = len(m) == 3 && m[0] == 0xFF && m[1] == 0x2F && m[2] == 0x00
+
+//@ func (Track).IsClosed
+//@ ensures [P:C01] result == (len(t) > 0 && isEOT(t[len(t)-1].Message))
+
+// a well-formed track has at most one end-of-track event, and only as its last event
+//@ macro wfTrack(t) = forall i int :: 0 <= i && i < len(t) - 1 ==> !isEOT(t[i].Message)
+
+//@ func (*Track).Close
+//@ modifies *t
+//@ ensures [P:C01] len(*t) > 0 && isEOT((*t)[len(*t)-1].Message)
+//@ ensures [P:C01] old(len(*t) > 0 && isEOT((*t)[len(*t)-1].Message)) ==> *t == old(*t)
+//@ ensures [P:C01] !old(len(*t) > 0 && isEOT((*t)[len(*t)-1].Message)) ==> (len(*t) == old(len(*t)) + 1 && (*t)[len(*t)-1].Delta == deltaticks && forall i int :: 0 <= i && i < old(len(*t)) ==> (*t)[i] == old((*t)[i]))
+//@ ensures [P:C01] old(wfTrack(*t)) ==> wfTrack(*t)
+
+// Add appends the messages (the first with the given delta, the others with delta 0) unless the track is closed
+//@ func (*Track).Add
+//@ requires forall k int :: 0 <= k && k < len(msgs) ==> !isEOT(msgs[k])
+//@ modifies *t
+//@ ensures [P:C01] old(len(*t) > 0 && isEOT((*t)[len(*t)-1].Message)) ==> *t == old(*t)
+//@ ensures [P:C01] !old(len(*t) > 0 && isEOT((*t)[len(*t)-1].Message)) ==> (len(*t) == old(len(*t)) + len(msgs) && forall i int :: 0 <= i && i < old(len(*t)) ==> (*t)[i] == old((*t)[i]))
+//@ ensures [P:C01] !old(len(*t) > 0 && isEOT((*t)[len(*t)-1].Message)) ==> forall k int :: 0 <= k && k < len(msgs) ==> ((*t)[old(len(*t)) + k].Message == msgs[k] && (*t)[old(len(*t)) + k].Delta == (k == 0 ? deltaticks : 0))
+//@ ensures [P:C01] old(wfTrack(*t)) ==> wfTrack(*t)
+//@ loop 0 invariant -1 <= rangeindex && rangeindex < len(msgs)
+//@ loop 0 invariant !old(len(*t) > 0 && isEOT((*t)[len(*t)-1].Message))
+//@ loop 0 invariant len(*t) == old(len(*t)) + rangeindex + 1 && forall i int :: 0 <= i && i < old(len(*t)) ==> (*t)[i] == old((*t)[i])
+//@ loop 0 invariant forall k int :: 0 <= k && k <= rangeindex ==> ((*t)[old(len(*t)) + k].Message == msgs[k] && (*t)[old(len(*t)) + k].Delta == (k == 0 ? old(deltaticks) : 0))
+//@ loop 0 invariant deltaticks == (rangeindex + 1 == 0 ? old(deltaticks) : 0)
+//@ loop 0 invariant old(wfTrack(*t)) ==> forall i int :: 0 <= i && i < len(*t) ==> !isEOT((*t)[i].Message)
+//@ loop 0 invariant forall k int :: 0 <= k && k < len(msgs) ==> !isEOT(msgs[k])
+//@ loop 0 decreases len(msgs) - rangeindex
